@@ -175,6 +175,40 @@ theorem core_purge (s : St) (k : String) (hn : Nd s.ds) (hc : Core s)
             · rw [hk, find?_erase_self _ _ hn] at h0; cases h0
             · rw [find?_erase_ne _ _ _ hk] at h0 ⊢; exact hc.content k' d0 tok h0 hw
 
+/-- the purge of a failed job's callback: the job has left the pool, so nothing refers to the key any more -/
+theorem core_purgeFailed (s : St) (k : String) (hn : Nd s.ds) (hc : Core s) (hnj : ∀ j ∈ s.jobs, j.key ≠ k) :
+    Core (purgeFailed s k) := by
+  unfold purgeFailed
+  cases hd : find? s.ds k with
+  | none => exact hc
+  | some d =>
+    simp only
+    split
+    · exact hc
+    · rename_i hst
+      have hres : d.status.resident = true := by
+        cases h : d.status <;> simp [h, Status.resident] at hst ⊢
+      refine ⟨nd_erase _ _ hc.ndSegs, ?_, hc.jobKeys, ?_, ?_, ?_, ?_⟩
+      · have := total_erase weight s.ds k d hd
+        have hw : weight d = d.size := by simp [weight, hres]
+        have ha := hc.acct
+        simp only; unfold residentTotal at *; omega
+      · intro j hjm
+        obtain ⟨d0, h0, r⟩ := hc.jobLink j hjm
+        exact ⟨d0, by simp only; rw [find?_erase_ne _ _ _ (hnj j hjm)]; exact h0, r⟩
+      · intro j hjm h1 h2
+        simp only; rw [find?_erase_ne _ _ _ (hnj j hjm)]; exact hc.outDone j hjm h1 h2
+      · intro k' g' hg'
+        simp only at hg' ⊢
+        by_cases hk : k' = k
+        · rw [hk, find?_erase_self _ _ hc.ndSegs] at hg'; cases hg'
+        · rw [find?_erase_ne _ _ _ hk] at hg' ⊢; exact hc.segLink k' g' hg'
+      · intro k' d0 tok h0 hw
+        simp only at h0 ⊢
+        by_cases hk : k' = k
+        · rw [hk, find?_erase_self _ _ hn] at h0; cases h0
+        · rw [find?_erase_ne _ _ _ hk] at h0 ⊢; exact hc.content k' d0 tok h0 hw
+
 theorem core_afterClose (s : St) (k : String) (hn : Nd s.ds) (hc : Core s)
     (hj : ∀ d, find? s.ds k = some d → ∀ j ∈ s.jobs, j.key ≠ k) : Core (afterClose s k) := by
   unfold afterClose
@@ -313,6 +347,8 @@ theorem core_cwrite (s : St) (k : String) (size tok : Nat) (hc : Core s)
     (hcf : ∃ d, find? s.ds k = some d ∧ d.status = .created ∧ d.size = size) : Core (cwrite s k size tok).1 := by
   obtain ⟨d, hd, hst, hsz⟩ := hcf
   unfold cwrite
+  split
+  · exact hc
   cases hg : find? s.segs k with
   | some g => exact hc
   | none =>
